@@ -386,7 +386,7 @@ pub fn run_c04(a: &Args) {
 fn centrality_case(rng: &mut Rng, idx: u64, thorough: bool) -> GCase {
     let kinds = kinds8();
     let wcl = vec![WClass::Unweighted, WClass::Exact, WClass::Exact, WClass::ExactWide, WClass::Generic, WClass::UlpsDecimal, WClass::UlpsTiny];
-    if idx % 250 == 249 {
+    if idx % 120 == 119 {
         // size sweep across powers of two and chunk-size boundaries
         let sizes: &[usize] = if thorough { &[65, 100, 129, 200, 257, 300, 400, 513, 700] } else { &[65, 130, 260, 300] };
         if rng.chance(1, 4) {
@@ -396,6 +396,17 @@ fn centrality_case(rng: &mut Rng, idx: u64, thorough: bool) -> GCase {
             let k = *rng.pick(&[26usize, 30, 40, 64, 66]);
             let w = *rng.pick(&[WClass::Unweighted, WClass::Exact]);
             return diamond_chain(*rng.pick(&kinds), k, w, rng);
+        }
+        if rng.chance(1, 3) {
+            ctx::count("reach:n>64");
+            ctx::count("reach:hub-with-more-than-64-neighbours");
+            let mut c = boundary_case(rng, 66, 140, &kinds, &wcl);
+            let mut tries = 0;
+            while c.family != "boundary-hub" && tries < 20 {
+                c = boundary_case(rng, 66, 140, &kinds, &wcl);
+                tries += 1;
+            }
+            return c;
         }
         let n = *rng.pick(sizes);
         let specs = *rng.pick(&kinds);
@@ -576,7 +587,7 @@ pub fn run_c08(a: &Args) {
         let kind = kind_class(&g);
         let weighted = case.wclass.weighted();
         let n = d.n;
-        let exact = case.wclass != WClass::Generic || !weighted;
+        let exact = case.wclass.is_exact() || !weighted; // sums of non-dyadic weights depend on the direction of travel
         let fail = |func: &str, class: &str, detail: Value| {
             ctx::violation(&format!("C08|{}|{}|{}", func, class, kind), &format!("{}: {}", func, class), json!({"detail": detail, "weighted": weighted, "graph": case.json()}));
         };
